@@ -463,6 +463,8 @@ def main():
             extract_summ.append({"unit": unit, "rules": log["rules"], "dropped_docs": log["dropped_docs"],
                                  "dropped_attrs": log["dropped_attrs"], "spliced_clauses": log["spliced_clauses"],
                                  "spliced_loop_clauses": log["spliced_loop_clauses"], "rehomed": log.get("rehomed", []), "monomorphised": log.get("monomorphised", []),
+                                 "inlined_helpers": log.get("inlined_helpers", []), "macro_expansions": log.get("macro_expansions", []),
+                                 "restated_derives": log.get("restated_derives", []), "substitutions": log.get("substitutions", []),
                                  "extracted_fns": len(log["fns"]), "verus_verified_queries": r["verified"]})
             extracted = {}
             for f in log["fns"]:
